@@ -633,7 +633,7 @@ class Sim:
                 try:
                     meta = dict(l.strip().split("=", 1) for l in open(base + ".meta") if "=" in l)
                     out.append({"msg": open(base + ".msg", "rb").read(), "env": open(base + ".env", "rb").read(),
-                                "pid": int(meta.get("pid", 0)), "base": base})
+                                "pid": int(meta.get("pid", 0)), "base": base, "plan": meta.get("plan", "")})
                 except (OSError, ValueError):
                     pass
         return out
